@@ -126,6 +126,11 @@ def check_model(rep, drv, gen, rng, m, text, c, with_jax):
                             v3 = pipeline.validate(drv, "named", 0, len(tbl), tbl, impl.body_to_sx(fns["missing_values"]["body"]))
                             if not v3.get("valid"):
                                 bad["missing_values"] = v3
+                            pipeline.check_mirror_function(rep, drv, text, "missing", ru, ("tsp", list(req.items())),
+                                                           fns["missing_values"]["args"], impl.body_to_sx(fns["missing_values"]["body"]))
+                        pipeline.check_mirror_function(rep, drv, text, "rhs", ru, "tsp", fns["rhs"]["args"], impl.body_to_sx(fns["rhs"]["body"]))
+                        pipeline.check_mirror_function(rep, drv, text, "monitor", ru, "tsp", fns["monitor_values"]["args"],
+                                                       impl.body_to_sx(fns["monitor_values"]["body"]))
                         if bad:
                             structural = (f"{k} of {cname!r} (remove_unused={ru}): rejected by the validators: {bad}",
                                           {"kind": "validator", "relation": "Valid.valid_rhs / valid_named on a sub-model", "text": text,
